@@ -112,7 +112,9 @@ def run_defaults(case, outcome):
                 _, tag, device, policy, sender = op
                 sd = None if sender == "n" else (clis.get(int(sender[1:])) if sender[0] == "c" else devs.get(int(sender[1:])))
                 msg = make_message(tag, device, policy)
-                if tag == "enableBLOB" and sender[0] == "c" and clis.get(int(sender[1:])) in router.clients:
+                # (a setting is taken only from a sender the router keeps a policy table for: after a double registration and one
+                # unregistration the client is still served but has no table any more)
+                if tag == "enableBLOB" and sender[0] == "c" and clis.get(int(sender[1:])) in router.blob_routing:
                     explicit.add((int(sender[1:]), getattr(msg, "device")))
                 router.process_message(msg, sd)
                 if tag != "enableBLOB" and getattr(msg, "from_device", False):
